@@ -1,10 +1,14 @@
 mod corpus;
 mod explore;
+mod history;
+mod programs;
+mod r#gen;
 mod lockstep;
 mod player;
 mod props;
 mod rng;
 mod storyinfo;
+mod tools;
 mod util;
 
 fn main() {
@@ -15,7 +19,15 @@ fn main() {
     }
     let cfg = util::parse_args(&args);
     let code = match cfg.prop.as_str() {
+        "C02" => props::c02::run(&cfg),
         "C05" => props::c05::run(&cfg),
+        "play" => tools::play_cmd(&args),
+        "gen" => tools::gen_cmd(&cfg),
+        "classify" => tools::classify_cmd(&args),
+        "minimize" => tools::minimize_cmd(&args, &cfg),
+        "genprog" => tools::genprog_cmd(&cfg),
+        "genstats" => tools::genstats_cmd(&cfg),
+        "compile" => tools::compile_cmd(&args),
         other => {
             eprintln!("unknown command {other}");
             2
